@@ -158,9 +158,17 @@ func (s *Sim) opTick(op *Op) {
 		t := m.Sessions[id]
 		keep := t.Out[:0]
 		for _, o := range t.Out {
-			if o.M.ExpAt > 0 && m.Now > o.M.ExpAt && !o.Pubrec {
-				// (a message the client has answered with PUBREC has been delivered: what is left is the PUBREL/PUBCOMP
-				// handshake, which message expiry does not cancel)
+			// a message the client has answered with PUBREC has been delivered: what is left is the PUBREL/PUBCOMP
+			// handshake, which the message's own expiry does not cancel; the broker keeps that state for the server's
+			// maximum message expiry interval, counted from the PUBREC
+			pubrelGone := false
+			if o.Pubrec {
+				if mx := s.effectiveExpiry(0); mx > 0 && m.Now-o.PubrecAt > mx {
+					pubrelGone = true
+					m.count("pubrel_state_dropped_after_server_maximum")
+				}
+			}
+			if (o.M.ExpAt > 0 && m.Now > o.M.ExpAt && !o.Pubrec) || pubrelGone {
 				m.count("inflight_expired")
 				if t.Slot != nil {
 					for _, e := range t.Slot.Exp {
